@@ -30,6 +30,9 @@ def main():
                                  "linecol": [[d[0], d[1], d[2]] for d in getattr(validate.run, "linecol", [])[:5]]}
         if fn != "validation_only":
             queries.set_shard(shard, nshards)
+            queries.SEED = int(os.environ.get("VERIF_SEED", "0") or 0)
+            queries.INSTANCES = 10 if os.environ.get("BLV_TIER") == "thorough" else 4
+            queries.CROSS = os.environ.get("BLV_TIER") == "thorough" and fn in ("c12_rule", "c12_token", "c11_freeform", "c03_positions", "c11_strings")
             if "ks" in kw:
                 kw["ks"] = tuple(kw["ks"])
             try:
